@@ -520,3 +520,327 @@ Proof.
   rewrite (map_nth g), nth_zrange by lia. unfold g.
   apply decode_encode; [now rewrite map_length|apply render_row_ok].
 Qed.
+
+(* ------------------------------------------------------------------ *)
+(* analog thresholding                                                 *)
+(* ------------------------------------------------------------------ *)
+
+Lemma digitise_spec one thr fl v : 0 < one -> 0 < thr ->
+  digitise one thr fl v = if thr <=? v - fl then 1 else 0.
+Proof.
+  intros Ho Ht. unfold digitise.
+  destruct (v - fl <? thr) eqn:E1; [apply Z.ltb_lt in E1|apply Z.ltb_ge in E1].
+  - replace (thr <=? 0) with false by (symmetry; apply Z.leb_gt; lia).
+    replace (thr <=? v - fl) with false by (symmetry; apply Z.leb_gt; lia).
+    apply Z.quot_0_l. lia.
+  - replace (thr <=? v - fl) with true by (symmetry; apply Z.leb_le; lia).
+    apply Z.quot_same. lia.
+Qed.
+
+Lemma digitise_nonpos_thr one thr fl v : 0 < one -> thr <= 0 -> digitise one thr fl v = 1.
+Proof.
+  intros Ho Ht. unfold digitise.
+  destruct (v - fl <? thr) eqn:E1; [apply Z.ltb_lt in E1|apply Z.ltb_ge in E1].
+  - replace (thr <=? 0) with true by (symmetry; apply Z.leb_le; lia). apply Z.quot_same. lia.
+  - replace (thr <=? v - fl) with true by (symmetry; apply Z.leb_le; lia). apply Z.quot_same. lia.
+Qed.
+
+Lemma digitise_binary one thr fl v : 0 < one -> digitise one thr fl v = 0 \/ digitise one thr fl v = 1.
+Proof.
+  intros Ho. destruct (Z_lt_le_dec 0 thr) as [Ht|Ht].
+  - rewrite digitise_spec by assumption. destruct (thr <=? v - fl); auto.
+  - right. now apply digitise_nonpos_thr.
+Qed.
+
+(* ------------------------------------------------------------------ *)
+(* read_sync layout                                                    *)
+(* ------------------------------------------------------------------ *)
+
+Lemma slice_rows_length {A} start stop (rows : list A) :
+  length (slice_rows start stop rows) =
+  Z.to_nat (snd (slice_first_count start stop (Z.of_nat (length rows)))).
+Proof.
+  unfold slice_rows, slice_first_count, adjust.
+  set (n := Z.of_nat (length rows)).
+  rewrite firstn_length, skipn_length. cbn [snd].
+  destruct (start <? 0) eqn:E1; destruct (stop <? 0) eqn:E2;
+    try apply Z.ltb_lt in E1; try apply Z.ltb_ge in E1; try apply Z.ltb_lt in E2; try apply Z.ltb_ge in E2;
+    subst n; lia.
+Qed.
+
+Lemma nth_firstn_lt {A} (l : list A) d : forall n j, (j < n)%nat -> nth j (firstn n l) d = nth j l d.
+Proof.
+  induction l as [|a l IH]; intros [|n] [|j] H; cbn; try reflexivity; try lia. apply IH. lia.
+Qed.
+
+Lemma nth_skipn_add {A} (l : list A) d : forall n j, nth j (skipn n l) d = nth (n + j) l d.
+Proof.
+  induction l as [|a l IH]; intros [|n] j; cbn [skipn Nat.add]; try reflexivity.
+  - destruct j; reflexivity.
+  - cbn [nth]. apply IH.
+Qed.
+
+Lemma slice_rows_nth {A} start stop (rows : list A) d j :
+  (j < length (slice_rows start stop rows))%nat ->
+  nth j (slice_rows start stop rows) d =
+  nth (Z.to_nat (fst (slice_first_count start stop (Z.of_nat (length rows)))) + j) rows d.
+Proof.
+  intros Hj. pose proof (slice_rows_length start stop rows) as Hl.
+  unfold slice_rows in *. destruct (slice_first_count start stop (Z.of_nat (length rows))) as [a c].
+  cbn [fst snd] in *. rewrite firstn_length in Hj.
+  rewrite nth_firstn_lt by lia. apply nth_skipn_add.
+Qed.
+
+Lemma In_firstn {A} (l : list A) x : forall n, In x (firstn n l) -> In x l.
+Proof. induction l as [|a l IH]; intros [|n] H; cbn in *; try tauto. destruct H; auto. right. eauto. Qed.
+
+Lemma In_skipn {A} (l : list A) x : forall n, In x (skipn n l) -> In x l.
+Proof. induction l as [|a l IH]; intros [|n] H; cbn in *; try tauto. right. eauto. Qed.
+
+Lemma slice_rows_incl {A} start stop (rows : list A) r :
+  In r (slice_rows start stop rows) -> In r rows.
+Proof.
+  unfold slice_rows. destruct (slice_first_count _ _ _) as [a c]. intros H.
+  apply In_firstn in H. now apply In_skipn in H.
+Qed.
+
+Lemma get_col_ok row i : 0 <= i < Z.of_nat (length row) ->
+  get_col row i = Some (nth (Z.to_nat i) row 0).
+Proof.
+  intros Hi. unfold get_col. replace (i <? 0) with false by (symmetry; apply Z.ltb_ge; lia).
+  replace (0 <=? i) with true by (symmetry; apply Z.leb_le; lia).
+  replace (i <? Z.of_nat (length row)) with true by (symmetry; apply Z.ltb_lt; lia).
+  cbn [andb]. apply nth_error_nth'. lia.
+Qed.
+
+Lemma all_some_map {A B} (f : A -> option B) (g : A -> B) l :
+  (forall x, In x l -> f x = Some (g x)) -> all_some (map f l) = Some (map g l).
+Proof.
+  induction l as [|a l IH]; intros H; cbn [map all_some]; [reflexivity|].
+  rewrite (H a (or_introl eq_refl)), IH by (intros x Hx; apply H; right; exact Hx). reflexivity.
+Qed.
+
+Lemma hconcat_map {A} (f g : A -> list Z) l :
+  hconcat (map f l) (map g l) = Some (map (fun r => f r ++ g r) l).
+Proof. induction l as [|a l IH]; cbn [map hconcat]; [reflexivity|]. now rewrite IH. Qed.
+
+Lemma combine_self_map {A B} (h : A -> B) l : combine l (map h l) = map (fun k => (k, h k)) l.
+Proof. induction l as [|a l IH]; cbn; [reflexivity|]. now rewrite IH. Qed.
+
+(* entry k of the digitised analog part *)
+Lemma digitise_row_nth one thr gain floors vals k : (k < length vals)%nat ->
+  nth k (digitise_row one thr gain floors vals) 0 =
+  digitise one thr (floor_at floors k) (nth k vals 0 * gain).
+Proof.
+  intros Hk. unfold digitise_row.
+  set (F := fun kv : nat * Z => digitise one thr (floor_at floors (fst kv)) (snd kv * gain)).
+  rewrite (nth_indep _ 0 (F (0%nat, 0))) by (rewrite map_length, combine_length, seq_length; lia).
+  rewrite (map_nth F). rewrite combine_nth by (now rewrite seq_length).
+  rewrite seq_nth by lia. reflexivity.
+Qed.
+
+Lemma digitise_row_length one thr gain floors vals :
+  length (digitise_row one thr gain floors vals) = length vals.
+Proof. unfold digitise_row. rewrite map_length, combine_length, seq_length. lia. Qed.
+
+Lemma analog_indices_spec typ c0 c1 c2 c3 :
+  analog_indices typ c0 c1 c2 c3 =
+  if typ =? 1 then map (fun i => c0 + c1 + Z.of_nat i) (seq 0 (Z.to_nat c2)) else [].
+Proof. unfold analog_indices, zrange. destruct (typ =? 1); [|reflexivity]. now rewrite map_map. Qed.
+
+(* the analog values of one raw row *)
+Definition analog_cols (typ c0 c1 c2 c3 : Z) (r : list Z) : list Z :=
+  map (fun i => nth (Z.to_nat i) r 0) (analog_indices typ c0 c1 c2 c3).
+
+Lemma read_sync_layout typ ntr c0 c1 c2 c3 start stop one thr gain floors raw :
+  nsync_of typ c0 c1 c2 c3 = 1 -> 1 <= ntr ->
+  (forall r, In r raw -> Z.of_nat (length r) = ntr) ->
+  (forall i, In i (analog_indices typ c0 c1 c2 c3) -> 0 <= i < ntr) ->
+  (floors = None \/ slice_rows start stop raw <> [] \/ analog_indices typ c0 c1 c2 c3 = []) ->
+  read_sync typ ntr c0 c1 c2 c3 start stop one thr gain floors raw =
+  Some (map (fun r => split_word (nth (Z.to_nat (ntr - 1)) r 0)
+                      ++ digitise_row one thr gain floors (analog_cols typ c0 c1 c2 c3 r))
+            (slice_rows start stop raw)).
+Proof.
+  intros Hns Hntr Hrect Hidx Hfl.
+  set (sel := slice_rows start stop raw) in *.
+  assert (Hsel : forall r, In r sel -> Z.of_nat (length r) = ntr).
+  { intros r Hr. apply Hrect. unfold sel in Hr. now apply slice_rows_incl in Hr. }
+  assert (Hdig : read_sync_digital typ ntr c0 c1 c2 c3 start stop raw =
+                 Some (map (fun r => split_word (nth (Z.to_nat (ntr - 1)) r 0)) sel)).
+  { unfold read_sync_digital, sync_indices. rewrite Hns. fold sel.
+    change (zrange (Z.to_nat 1)) with [0]. cbn [map].
+    rewrite (all_some_map _ (fun r => nth (Z.to_nat (ntr - 1)) r 0)).
+    - unfold split_sync. now rewrite map_map.
+    - intros r Hr. replace (ntr - 1 + 0) with (ntr - 1) by lia. apply get_col_ok.
+      rewrite (Hsel r Hr). lia. }
+  unfold read_sync. rewrite Hdig. fold sel. unfold analog_cols.
+  destruct (analog_indices typ c0 c1 c2 c3) as [|i0 idx] eqn:Eidx.
+  - apply f_equal. apply map_ext. intros r. cbn [map]. unfold digitise_row. cbn [length seq combine map]. symmetry. apply app_nil_r.
+  - rewrite (all_some_map _ (fun r => map (fun i => nth (Z.to_nat i) r 0) (i0 :: idx))).
+    + destruct floors as [fl|].
+      * destruct sel as [|r0 sel'] eqn:Es.
+        -- exfalso. destruct Hfl as [H|[H|H]]; [discriminate|now apply H|discriminate].
+        -- rewrite <- Es. set (an := map _ sel).
+           assert (Han : an <> []) by (unfold an; rewrite Es; discriminate).
+           destruct an as [|a0 an'] eqn:Ean; [congruence|].
+           rewrite <- Ean. unfold an. rewrite map_map. apply hconcat_map.
+      * rewrite map_map. apply hconcat_map.
+    + intros r Hr. unfold gather_cols. apply all_some_map. intros i Hi. apply get_col_ok.
+      rewrite (Hsel r Hr). apply Hidx. exact Hi.
+Qed.
+
+(* ------------------------------------------------------------------ *)
+(* fronts on 2-D arrays                                                *)
+(* ------------------------------------------------------------------ *)
+
+(* axis 1 (the default, axis=-1): the rows one after the other, each with its own fronts *)
+Fixpoint per_row_fronts (r step : Z) (x : list (list Z)) : list (Z * Z * Z) :=
+  match x with
+  | [] => []
+  | row :: t => map (fun p => (r, fst p, snd p)) (front_pairs step row) ++ per_row_fronts (r + 1) step t
+  end.
+
+Lemma where2_row f d r :
+  map (bump 1) (map (fun c => (r, c, nth (Z.to_nat c) d 0)) (where_from 0 f d)) =
+  map (fun p => (r, fst p + 1, snd p)) (wv 0 f d).
+Proof.
+  rewrite <- wv_fst, !map_map. apply map_ext_in. intros [j v] H. apply in_wv in H.
+  cbn [fst snd bump]. change (1 =? 0) with false. cbv iota.
+  destruct H as (_ & -> & _). now rewrite Z.sub_0_r.
+Qed.
+
+Lemma fronts2_axis1 step x : fronts2 1 step x = per_row_fronts 0 step x.
+Proof.
+  unfold fronts2, diff2. change (1 =? 0) with false. cbv iota. generalize 0.
+  induction x as [|row t IH]; intros r; cbn [map where2_from per_row_fronts]; [reflexivity|].
+  rewrite map_app, IH. f_equal. rewrite where2_row, front_pairs_wv, map_map. reflexivity.
+Qed.
+
+(* axis 0: differences of consecutive rows *)
+Definition at2 (x : list (list Z)) (r c : Z) : Z := nth (Z.to_nat c) (nth (Z.to_nat r) x []) 0.
+
+Lemma map2_length f a : forall b, length (map2 f a b) = Nat.min (length a) (length b).
+Proof. induction a as [|x a IH]; intros [|y b]; cbn; try reflexivity. now rewrite IH. Qed.
+
+Lemma nth_map2 f a : forall b c, (c < length a)%nat -> (c < length b)%nat ->
+  nth c (map2 f a b) 0 = f (nth c a 0) (nth c b 0).
+Proof.
+  induction a as [|x a IH]; intros [|y b] [|c] Ha Hb; cbn in *; try lia; try reflexivity.
+  apply IH; lia.
+Qed.
+
+Lemma diff_rows_cons2 a b t : diff_rows (a :: b :: t) = map2 Z.sub b a :: diff_rows (b :: t).
+Proof. reflexivity. Qed.
+
+Lemma diff_rows_length x : length (diff_rows x) = (length x - 1)%nat.
+Proof.
+  induction x as [|a t IH]; [reflexivity|]. destruct t as [|b t]; [reflexivity|].
+  rewrite diff_rows_cons2. cbn [length] in *. rewrite IH. lia.
+Qed.
+
+Lemma nth_diff_rows x : forall i, (S i < length x)%nat ->
+  nth i (diff_rows x) [] = map2 Z.sub (nth (S i) x []) (nth i x []).
+Proof.
+  induction x as [|a t IH]; intros i Hi; [cbn in Hi; lia|].
+  destruct t as [|b t]; [cbn in Hi; lia|]. rewrite diff_rows_cons2.
+  destruct i as [|i]; [reflexivity|].
+  cbn [nth]. rewrite IH by (cbn [length] in *; lia). reflexivity.
+Qed.
+
+Lemma in_where2_from f d : forall r0 r c v, In (r, c, v) (where2_from r0 f d) <->
+  r0 <= r < r0 + Z.of_nat (length d) /\
+  0 <= c < Z.of_nat (length (nth (Z.to_nat (r - r0)) d [])) /\
+  v = nth (Z.to_nat c) (nth (Z.to_nat (r - r0)) d []) 0 /\ f v = true.
+Proof.
+  induction d as [|row t IH]; intros r0 r c v; cbn [where2_from length].
+  - split; [intros []|lia].
+  - rewrite in_app_iff, IH, in_map_iff. split.
+    + intros [[c' [Heq Hc']] | (H1 & H2 & H3 & H4)].
+      * inversion Heq; subst. apply in_where_from in Hc'. rewrite Z.sub_0_r in Hc'.
+        replace (r - r) with 0 by lia. cbn [Z.to_nat nth]. split; [lia|]. split; [lia|]. tauto.
+      * replace (Z.to_nat (r - r0)) with (S (Z.to_nat (r - (r0 + 1)))) by lia. cbn [nth].
+        split; [lia|]. auto.
+    + intros (H1 & H2 & H3 & H4). destruct (Z.eq_dec r r0) as [->|Hne].
+      * left. replace (r0 - r0) with 0 in * by lia. cbn [Z.to_nat nth] in *.
+        exists c. split; [now subst v|]. apply in_where_from. rewrite Z.sub_0_r. split; [lia|]. now subst v.
+      * right. replace (Z.to_nat (r - r0)) with (S (Z.to_nat (r - (r0 + 1)))) in * by lia.
+        cbn [nth] in *. split; [lia|]. auto.
+Qed.
+
+Lemma in_fronts2_axis0 step nc x r c s :
+  Forall (fun row => length row = nc) x ->
+  In (r, c, s) (fronts2 0 step x) <->
+  1 <= r < Z.of_nat (length x) /\ 0 <= c < Z.of_nat nc /\
+  s = at2 x r c - at2 x (r - 1) c /\ step <= Z.abs s.
+Proof.
+  intros Hrect. rewrite Forall_forall in Hrect.
+  assert (Hlen : forall i, (i < length x)%nat -> length (nth i x []) = nc)
+    by (intros i Hi; apply Hrect, nth_In, Hi).
+  unfold fronts2, diff2. change (0 =? 0) with true. cbv iota.
+  rewrite in_map_iff. split.
+  - intros [[[r' c'] v] [Hb H]]. unfold bump in Hb. change (0 =? 0) with true in Hb. cbv iota in Hb.
+    inversion Hb; subst. apply in_where2_from in H. rewrite diff_rows_length, Z.sub_0_r in H.
+    destruct H as (H1 & H2 & H3 & H4).
+    rewrite nth_diff_rows in H2, H3 by lia.
+    rewrite map2_length, !Hlen in H2 by lia.
+    rewrite nth_map2 in H3 by (rewrite Hlen; lia). apply Z.leb_le in H4.
+    unfold at2. replace (Z.to_nat (r' + 1)) with (S (Z.to_nat r')) by lia.
+    replace (r' + 1 - 1) with r' by lia. split; [lia|]. split; [lia|]. auto.
+  - intros (H1 & H2 & H3 & H4). exists (r - 1, c, s). split.
+    + unfold bump. change (0 =? 0) with true. cbv iota. f_equal. f_equal. lia.
+    + apply in_where2_from. rewrite diff_rows_length, Z.sub_0_r.
+      rewrite nth_diff_rows by lia. rewrite map2_length, !Hlen by lia.
+      rewrite nth_map2 by (rewrite Hlen; lia).
+      split; [lia|]. split; [lia|]. split; [|apply Z.leb_le; exact H4].
+      unfold at2 in H3. replace (S (Z.to_nat (r - 1))) with (Z.to_nat r) by lia. exact H3.
+Qed.
+
+Lemma at_column x c r : at_ (column c x) r = at2 x r (Z.of_nat c).
+Proof.
+  unfold at_, at2, column. rewrite Nat2Z.id.
+  assert (H0 : nth c (@nil Z) 0 = 0) by (destruct c; reflexivity).
+  rewrite <- H0 at 1. exact (map_nth (fun row => nth c row 0) x [] (Z.to_nat r)).
+Qed.
+
+(* axis 0 = per-trace fronts of every column *)
+Lemma fronts2_axis0_per_column step nc x r c s :
+  Forall (fun row => length row = nc) x ->
+  In (r, c, s) (fronts2 0 step x) <->
+  0 <= c < Z.of_nat nc /\ In (r, s) (front_pairs step (column (Z.to_nat c) x)).
+Proof.
+  intros Hrect. rewrite (in_fronts2_axis0 step nc x r c s Hrect), in_front_pairs.
+  unfold column at 1. rewrite map_length. rewrite !at_column.
+  split.
+  - intros (H1 & H2 & H3 & H4). rewrite Z2Nat.id by lia. tauto.
+  - intros (H2 & H1 & H3 & H4). rewrite Z2Nat.id in H3 by lia. tauto.
+Qed.
+
+(* 0/1 trains with the default step *)
+Lemma at_binary x i : binary x -> 0 <= i < Z.of_nat (length x) -> at_ x i = 0 \/ at_ x i = 1.
+Proof. intros Hb Hi. apply Hb. unfold at_. apply nth_In. lia. Qed.
+
+Lemma fronts_ttl x : binary x ->
+  (forall i, In i (fst (fronts1 1 x)) <-> 1 <= i < Z.of_nat (length x) /\ at_ x i <> at_ x (i - 1)) /\
+  (forall i s, In (i, s) (front_pairs 1 x) ->
+     (s = 1 /\ at_ x (i - 1) = 0 /\ at_ x i = 1) \/ (s = -1 /\ at_ x (i - 1) = 1 /\ at_ x i = 0)).
+Proof.
+  intros Hb. split.
+  - intros i. rewrite in_fronts1_ind. split.
+    + intros [H1 H2]. split; [exact H1|]. intros Heq. rewrite Heq in H2. lia.
+    + intros [H1 H2]. split; [exact H1|].
+      destruct (at_binary x i Hb ltac:(lia)) as [E1|E1];
+        destruct (at_binary x (i - 1) Hb ltac:(lia)) as [E2|E2]; rewrite E1, E2 in *; cbn; lia.
+  - intros i s H. apply in_front_pairs in H. destruct H as (H1 & H2 & H3).
+    destruct (at_binary x i Hb ltac:(lia)) as [E1|E1];
+      destruct (at_binary x (i - 1) Hb ltac:(lia)) as [E2|E2]; rewrite E1, E2 in *; subst s; cbn in H3; lia.
+Qed.
+
+Lemma split_sync_shape tr :
+  length (split_sync tr) = length tr /\
+  forall row, In row (split_sync tr) -> length row = 16%nat /\ binary row.
+Proof.
+  unfold split_sync. split; [apply map_length|].
+  intros row H. apply in_map_iff in H. destruct H as [v [<- _]].
+  split; [apply split_word_length|]. intros b. apply split_word_binary.
+Qed.
